@@ -10,5 +10,5 @@ rsync -a --exclude .git /repo/ "$d"/
 cd "$d"
 ./configure >/dev/null 2>&1
 make clean >/dev/null 2>&1
-make -j8 >/dev/null 2>&1
+make -j8 >/dev/null 2>&1 || { echo "BUILD FAILED in $d"; exit 1; }
 echo "worktree ready: $d"
